@@ -42,7 +42,9 @@ Two halves live in this file:
   if `Arbiter.reload()` gets as far as `setup()`; per step the helper reports whether the call returned and, if so,
   every setting of `arb.cfg` (what the master runs with from then on), and which of the variables gunicorn reads itself
   (GUNICORN_CMD_ARGS, WEB_CONCURRENCY, PORT, FORWARDED_ALLOW_IPS) `arb.cfg.env_orig` - the environment `reexec()`
-  hands to the next master on SIGUSR2 - holds, next to what the server's environment held when the cell began.
+  hands to the next master on SIGUSR2 - holds, next to what the server's environment held when the cell began
+  (`server_env`) and what os.environ held of them (and of the names in the recipe's `watch`) when the reload began
+  (`env_before`: shows that the master really had exported the former version's `raw_env`).
   An exception escaping `Arbiter.reload()` (SystemExit included) leaves the main loop and ends the master: the
   history ends at the first reload that does not return.  If the Arbiter cannot be CONSTRUCTED from a loaded
   application the observation carries `harness` (the reason) and the check must report the cell as inconclusive -
@@ -266,8 +268,8 @@ def _master(Arbiter, app):
     return arb
 
 
-def _own_variables(env):
-    return {k: env[k] for k in OWN_VARIABLES if k in env}
+def _own_variables(env, more=()):
+    return {k: env[k] for k in OWN_VARIABLES + tuple(more) if k in env}
 
 
 def _load_one(home, base_path, base_modules, recipe, LabApp, Arbiter):
@@ -341,6 +343,7 @@ def _load_one(home, base_path, base_modules, recipe, LabApp, Arbiter):
                     setattr(sys, MARK, [])
                     del REJECTED[:]
                     put(step.get("files", {}))
+                    env_before = _own_variables(os.environ, recipe.get("watch", ()))
                     try:
                         arb.reload()
                         so = {"returned": True,
@@ -353,6 +356,7 @@ def _load_one(home, base_path, base_modules, recipe, LabApp, Arbiter):
                         so = {"returned": False, "exc": type(e).__name__, "code": 1, "msg": str(e)[:200]}
                     so["loaded"] = list(getattr(sys, MARK, []))
                     so["rejected"] = [list(x) for x in REJECTED]
+                    so["env_before"] = env_before       # os.environ when the reload began (own + recipe["watch"])
                     obs["steps"].append(so)
                     if not so["returned"]:
                         break
